@@ -3,9 +3,9 @@
    the streaming append; the vector wrapper V2x64U with its operator impls; the free helpers le_u64 and the _mm_ ones), as
    translated from the CURRENT source text into the RustLite AST (gen/SrcWasmFull.v, regenerated on every run), means
    exactly what the hand-written model Wasm.v says.  Every lemma is about [call_fn ... wall_fns]: the interpreter of
-   Facts/RustLite.v running the generated bodies.  Supplied from outside: the meaning of the wasm32 SIMD instructions
-   ([vprim]/[sprim] of RustLite.v, i.e. the intrinsic models of Wasm.v) and of the one function of another file that
-   wasm.rs calls, internal::unordered_load3 ([wext], the model in Mem.v). *)
+   Facts/RustLite.v running the generated bodies — internal::unordered_load3, which wasm.rs calls, included (translated
+   from internal.rs).  Supplied from outside: only the meaning of the wasm32 SIMD instructions ([vprim]/[sprim] of
+   RustLite.v, i.e. the intrinsic models of Wasm.v). *)
 From Coq Require Import NArith List String Bool Arith Lia.
 From HW Require Import Word Chunks Packet Mem Stream X86 Portable Wasm.
 From HW.Refine Require Import ChunksFacts SourceTie PacketTie.
@@ -22,22 +22,16 @@ Definition wgenv_of (c : wcore) (bk : packet) : env :=
    ("self.mul1L"%string, VX (w_mul1L c)); ("self.mul1H"%string, VX (w_mul1H c));
    ("self.buffer.buf"%string, VA (buf bk)); ("self.buffer.buf_index"%string, VN (N.of_nat (Packet.idx bk)))].
 
-(* internal::unordered_load3(from: &[u8]) -> u64 *)
-Definition wext (p : profile) : string -> env -> list val -> option callres :=
-  fun f g vs =>
-    if String.eqb f "unordered_load3" then
-      match vs with
-      | [VA b] => Some (lift (unordered_load3 p b) (fun r => (g, [Some (VA b)], Some (VN r))))
-      | _ => Some Fault
-      end
-    else None.
+(* nothing is supplied to the interpreter from outside (the name is kept so that statements read the same) *)
+Definition wext (p : profile) : string -> env -> list val -> option callres := fun _ _ _ => None.
 
+(* one table: the functions of wasm.rs, internal::unordered_load3, and HashPacket's methods under "buffer.<method>" *)
 Definition wall_fns : list (string * fndef) :=
-  wsrc_fns ++ map (fun nd => (("buffer." ++ fst nd)%string, snd nd)) pkt_fns.
+  wsrc_fns ++ [("unordered_load3"%string, pkt_unordered_load3)] ++ map (fun nd => (("buffer." ++ fst nd)%string, snd nd)) pkt_fns.
 
 Ltac wl_gen c1 c2 c3 c4 c5 c6 c7 :=
   cbv beta iota zeta delta
-    [run_fn find_fn wall_fns wsrc_fns pkt_fns map app String.append wext
+    [run_fn find_fn wall_fns wsrc_fns pkt_fns pkt_unordered_load3 map app String.append wext
      sub_env merge_back penv
      wsrc_WasmHash_new wsrc_WasmHash_zipper_merge wsrc_WasmHash_update wsrc_WasmHash_permute_and_update
      wsrc_WasmHash_finalize64 wsrc_WasmHash_finalize128 wsrc_WasmHash_finalize256 wsrc_WasmHash_modular_reduction
